@@ -1,5 +1,7 @@
 """Obligation name (regex) -> replay driver script (run natively on /repo with /venv/bin/python)."""
 DRIVERS = [
+    (r"grpc/__init__\.py:convert_response/SIG/", "c11_unknown_metric_type.py"),
+    (r"api/plugin/__init__\.py:(Plugin\.is_active|load_plugins)/", "c20_plugin_switch.py"),
     (r"push/__init__\.py:|grpc/__init__\.py:(convert_value|__convert_attributes|convert_resource|safe_text)/", "c08_wire.py"),
     (r"LogActionResult\.process/LOG", "c16_log_ids.py"),
     (r"TracepointConfigService\.(add_custom|remove_custom)/", "c13_handles.py"),
@@ -22,8 +24,10 @@ DRIVER_PROPS = {
     "c08_wire.py": ["C08"],
     "c09_flush.py": ["C09"],
     "c10_eval_scope.py": ["C10"],
+    "c11_unknown_metric_type.py": ["C11"],
     "c13_handles.py": ["C13"],
     "c15_threadlocal.py": ["C15"],
     "c16_log_ids.py": ["C16"],
     "c19_env_config.py": ["C19"],
+    "c20_plugin_switch.py": ["C20"],
 }
